@@ -429,6 +429,7 @@ def plan(tier):
     units.append(('ownalias', tier))
     units.append(('proplayout', tier))
     units.append(('strings', tier))
+    units += [('module', tier, kind, k) for kind in ('expr', 'cond', 'pred', 'prop', 'spec') for k in range(4)]
     return units
 
 
@@ -608,6 +609,38 @@ def run(unit):
                         probs = compare_text(kind, text, None, r)
                         _add(r, [(f'string with inner white space: {k_}', d) for k_, d in probs], {'kind': kind, 'text': text, 'before': shape % ((s1,) * shape.count('%s'))}, len(text))
         r.sample({'strings': 'sa = "a  b" after sa = "a b"'})
+    elif what == 'module':
+        # the module-level helpers (a new parser object per call) must give what the parser objects give: corpus
+        # texts, ill-formed neighbours, layouts, strings with inner blanks; decided by the reference parser as usual
+        import hpl.parser as HP
+
+        _, _, kind, k = unit
+        fn = {'expr': HP.parse_expresion, 'cond': HP.parse_condition, 'pred': HP.parse_predicate, 'prop': HP.parse_property, 'spec': HP.parse_specification}[kind]
+        base = list(CORPUS['expr' if kind == 'cond' else kind])
+        texts = []
+        for t in base:
+            texts += [t, t.replace(' ', '  '), t.replace(' ', '\n'), t.replace(' ', '\t'), ' ' + t + ' \n', t + ' )', t[: len(t) // 2]]
+        extra = {'expr': ['sa = "a  b"', 'sa = "a b"', 'nox + android', '1 - - 1', '2 ** 3 ** 2', 'x = 1 = p'], 'cond': ['sa = "a\tb"', 'x and y or z implies w', 'notp'], 'pred': ['{ sa = " a " }', '{ True }', '{x}'],
+                 'prop': ['# title: "a  b" globally: no a', '# title: "a b" globally: no a', 'globally: no a within 0 s', 'globally: no nox', 'after a as A until b as B: c {x = @A.x + @B.x} causes d within 1.5 ms'],
+                 'spec': ['', '# id: a\nglobally: no a\n\n\n# id: b\nglobally: no b', 'globally: no a\r\nglobally: no b', 'globally: no a globally: no a']}[kind]
+        texts += extra
+        for i, text in enumerate(texts):
+            if i % 4 != k:
+                continue
+            r.count('evaluations')
+            r.count('states')
+            r.count('transitions')
+            st, obj = impl.try_parse(kind, text)
+            exp = (st, absyn.canon(absyn.lift(obj, typed=True)) if st == 'ok' else None)
+            try:
+                res = fn(text)
+                got = ('ok', absyn.canon(absyn.lift(res, typed=True)))
+            except Exception as e:  # noqa: BLE001
+                got = (impl.outcome_class(e), None)
+            if got != exp:
+                _add(r, [(f'module-level {fn.__name__} disagrees with the {kind} parser object', f'«{text}»: {got[0]} vs {exp[0]}')], {'kind': kind, 'text': text, 'module_level': True}, len(text))
+            _add(r, [(f'parser object: {k_}', d) for k_, d in compare_text(kind, text, None, r)], {'kind': kind, 'text': text}, len(text))
+        r.sample({'module_level': 'parse_property(' + repr(CORPUS['prop'][2]) + ')'})
     elif what == 'ownalias':
         # an event's predicate refers to the event's own alias in every slot kind (the parser stores the
         # message itself there): operands, range bounds with each bracket form, set elements, indices,
@@ -687,13 +720,26 @@ def replay(w):
         t, _ = RP.parse('expr', w['text'])
         probs, _n = check_layouts(t, 'thorough', Result())
         return [{'sig': k, 'detail': d} for k, d in probs]
+    if w.get('module_level'):
+        import hpl.parser as HP
+
+        fn = {'expr': HP.parse_expresion, 'cond': HP.parse_condition, 'pred': HP.parse_predicate, 'prop': HP.parse_property, 'spec': HP.parse_specification}[w['kind']]
+        st, obj = impl.try_parse(w['kind'], w['text'])
+        exp = (st, absyn.canon(absyn.lift(obj, typed=True)) if st == 'ok' else None)
+        try:
+            got = ('ok', absyn.canon(absyn.lift(fn(w['text']), typed=True)))
+        except Exception as e:  # noqa: BLE001
+            got = (impl.outcome_class(e), None)
+        return [] if got == exp else [{'sig': f'module-level {fn.__name__} disagrees with the parser object', 'detail': f'{got[0]} vs {exp[0]}'}]
+    if w.get('before'):
+        compare_text(w['kind'], w['before'], None, None)  # the text parsed just before on the same parser object
     return [{'sig': k, 'detail': d} for k, d in compare_text(w['kind'], w['text'], None, None)]
 
 
 def describe(tier):
     b = bounds(tier)
     return {
-        'rule': f"U1: all Bool/Num/Str terms <= {b['nodes']} nodes (every expression node kind; ints, decimals, exponents, leading-dot numbers, escaped strings, constants) in minimal and full parenthesisation through the expression, predicate and condition entry points and (predicates) inside a property and a specification file, which use the other embedded grammar; the operator-pair matrix: every well-sorted (a op1 b) op2 c and a op1 (b op2 c) over all pairs of the 16 binary operators plus unary operators and quantifiers in operand positions (344 terms) through all five entry points; U2: every property skeleton (widths <= {b['max_width']}) x 4 decorations x 6 time bounds x 3 metadata forms; U3: all layouts (newline, tab, glued) and redundant parentheses with <= {b['layout_dev']} deviations on terms <= {b['layout_nodes']} nodes and on the property/specification corpus; U4: all token sequences of length <= {b['seq_len_full']} over a {len(FULL_ALPHABET)}-token alphabet for 5 entry points, <= {b['seq_len_core']} over a {len(CORE_ALPHABET)}-token core alphabet (properties: <= {b['seq_len_core'] + 2} over {len(PROP_CORE)} tokens), all single token edits{' and double edits' if b['double_edits'] else ''} of a {sum(len(v) for v in CORPUS.values())}-text corpus; U5: grammar files vs embedded grammar on the corpus and its edits; U7: 21 predicates that use the event's own alias in every slot kind (range bounds with all bracket forms, set elements, indices, function arguments incl. the whole message, quantifier domains and bodies) x 5 property positions; U6: {len(PREFIXED)} keyword-prefixed names as field, nested field, variable, quantified variable, topic and alias. A state = one text; Plus every ordered pair of 14 strings that differ in inner / leading / trailing blanks (or look like HPL text) as string literal, title and description, parsed one after the other on the same parser object through 7 entry-point shapes; a transition = one real parse; every text is decided three ways (generator tree / reference parser / implementation).",
+        'rule': f"U1: all Bool/Num/Str terms <= {b['nodes']} nodes (every expression node kind; ints, decimals, exponents, leading-dot numbers, escaped strings, constants) in minimal and full parenthesisation through the expression, predicate and condition entry points and (predicates) inside a property and a specification file, which use the other embedded grammar; the operator-pair matrix: every well-sorted (a op1 b) op2 c and a op1 (b op2 c) over all pairs of the 16 binary operators plus unary operators and quantifiers in operand positions (344 terms) through all five entry points; U2: every property skeleton (widths <= {b['max_width']}) x 4 decorations x 6 time bounds x 3 metadata forms; U3: all layouts (newline, tab, glued) and redundant parentheses with <= {b['layout_dev']} deviations on terms <= {b['layout_nodes']} nodes and on the property/specification corpus; U4: all token sequences of length <= {b['seq_len_full']} over a {len(FULL_ALPHABET)}-token alphabet for 5 entry points, <= {b['seq_len_core']} over a {len(CORE_ALPHABET)}-token core alphabet (properties: <= {b['seq_len_core'] + 2} over {len(PROP_CORE)} tokens), all single token edits{' and double edits' if b['double_edits'] else ''} of a {sum(len(v) for v in CORPUS.values())}-text corpus; U5: grammar files vs embedded grammar on the corpus and its edits; U7: 21 predicates that use the event's own alias in every slot kind (range bounds with all bracket forms, set elements, indices, function arguments incl. the whole message, quantifier domains and bodies) x 5 property positions; U6: {len(PREFIXED)} keyword-prefixed names as field, nested field, variable, quantified variable, topic and alias. A state = one text; Plus the five module-level helpers (parse_specification / parse_property / parse_predicate / parse_condition / parse_expresion; a new parser per call) on the corpus, 6 layouts / ill-formed neighbours of every corpus text and 21 extra texts, compared with the parser objects. Plus every ordered pair of 14 strings that differ in inner / leading / trailing blanks (or look like HPL text) as string literal, title and description, parsed one after the other on the same parser object through 7 entry-point shapes; a transition = one real parse; every text is decided three ways (generator tree / reference parser / implementation).",
         'bounds': b,
         'exhaustive': True,
         'assumptions': [
